@@ -38,6 +38,8 @@ type Op struct {
 	Discard bool   `json:"discard"`
 	Tag     string `json:"tag,omitempty"` // free-form provenance label
 	Reps    int    `json:"reps,omitempty"`
+	RO      bool   `json:"ro"`            // lib: read-only library calls only (no Merge into the message)
+	Off     int    `json:"off,omitempty"` // alias_in: offset of the input inside its backing array
 }
 
 // Event is an executed Op with what was observed on the pulsar message and on the dynamicpb twin.
@@ -73,6 +75,9 @@ type Event struct {
 	Outs    [][]int `json:"outs"`              // detn: distinct outputs over all repetitions and histories
 	Marshals int    `json:"marshals"`
 	Histories int   `json:"histories"`
+	OutDirect []int `json:"out_direct"`        // marshal(det): bytes from a direct fast-path call with Flags = Deterministic only
+	OutNil    []int `json:"out_nil"`           // append: MarshalAppend(prefix, typed nil pointer)
+	evName    string
 }
 
 func findType(name string) protoreflect.MessageType {
@@ -134,7 +139,16 @@ func (r *codecRunner) project(e *Event) {
 
 func (r *codecRunner) emit(e *Event) {
 	e.Ev = e.Op.Op
+	if e.evName != "" {
+		e.Ev = e.evName
+	}
 	e.Case = r.caseN
+	if e.OutDirect == nil {
+		e.OutDirect = []int{}
+	}
+	if e.OutNil == nil {
+		e.OutNil = []int{}
+	}
 	if e.Out == nil {
 		e.Out = []int{}
 	}
@@ -180,6 +194,26 @@ func (r *codecRunner) run(op Op) {
 		proj.Fill(r.d.ProtoReflect(), op.V, proj.WrapNone)
 		e.Ok, e.RefOk = true, true
 		r.project(e)
+	case "sync":
+		// multi-step history: the SAME Go objects are edited in place to hold op.V (see sync.go)
+		e.evName = "load"
+		e.T = string(r.md.FullName())
+		e.Panic = catch(func() { syncInto(r.p.ProtoReflect(), op.V) })
+		r.d = dynamicpb.NewMessage(r.md)
+		proj.Fill(r.d.ProtoReflect(), op.V, proj.WrapNone)
+		e.Ok, e.RefOk = e.Panic == "", true
+		r.project(e)
+	case "reslice":
+		// Go-level history: every message list (any depth) is shortened by one with a plain
+		// reslice, x.F = x.F[:n-1], which keeps the dropped element in the spare capacity. The
+		// value is now the twin's after Truncate(n-1); later decodes must not resurrect the element.
+		e.evName = "load"
+		e.T = string(r.md.FullName())
+		e.N = resliceLists(reflect.ValueOf(r.p))
+		truncateLists(r.d.ProtoReflect())
+		e.Op.V = proj.Project(r.d.ProtoReflect(), proj.WrapNone)
+		e.Ok, e.RefOk = true, true
+		r.project(e)
 	case "reset":
 		e.Panic = catch(func() { proto.Reset(r.p) })
 		proto.Reset(r.d)
@@ -195,6 +229,24 @@ func (r *codecRunner) run(op Op) {
 			e.Err = err.Error()
 		}
 		e.Out = proj.Bytes(b)
+		if op.Det && e.Ok {
+			// the fast path called the way protoiface documents it, with ONLY the Deterministic flag
+			if pn := catch(func() {
+				pm := r.p.ProtoReflect()
+				if ms := pm.ProtoMethods(); ms != nil && ms.Marshal != nil {
+					out, derr := ms.Marshal(protoiface.MarshalInput{Message: pm, Flags: protoiface.MarshalDeterministic})
+					if derr != nil {
+						e.Err += "|direct: " + derr.Error()
+						e.Ok = false
+					}
+					e.OutDirect = proj.Bytes(out.Buf)
+				} else {
+					e.OutDirect = e.Out
+				}
+			}); pn != "" {
+				e.Panic, e.Ok = "direct: "+pn, false
+			}
+		}
 		rb, rerr := o.Marshal(r.d)
 		e.RefOk = rerr == nil
 		e.RefOut = proj.Bytes(rb)
@@ -356,11 +408,15 @@ func (r *codecRunner) run(op Op) {
 				}
 			}
 			// Merge(current, other) on pulsar
-			proto.Merge(r.p, other)
+			if !op.RO {
+				proto.Merge(r.p, other)
+			}
 		})
 		// ... and on the twin (outside the recover scope of the pulsar calls, so that a pulsar
 		// panic cannot make the twin look wrong)
-		proto.Merge(r.d, otherD)
+		if !op.RO {
+			proto.Merge(r.d, otherD)
+		}
 		e.Ok, e.RefOk = e.Panic == "", true
 		r.project(e)
 	case "plantnil":
@@ -374,7 +430,10 @@ func (r *codecRunner) run(op Op) {
 		r.project(e)
 	case "alias_in":
 		// C07: decode from a caller buffer, then overwrite that buffer: the message must not notice
-		in := append(make([]byte, 0, len(op.In)+8), proj.ToBytes(op.In)...)
+		// (the input sits at offset op.Off of its backing array: zero-copy views of aligned
+		// payloads only arise at some alignments)
+		backing := make([]byte, op.Off+len(op.In)+8)
+		in := append(backing[op.Off:op.Off], proj.ToBytes(op.In)...)
 		fresh := newPulsar(r.mt)
 		var uerr error
 		e.Panic = catch(func() { uerr = proto.Unmarshal(in, fresh) })
@@ -516,6 +575,18 @@ func (r *codecRunner) run(op Op) {
 		rb, rerr := o.MarshalAppend(append([]byte(nil), prefix...), r.d)
 		e.RefOk = rerr == nil
 		e.RefOut = proj.Bytes(rb)
+		// a typed nil pointer marshals as the empty message: the prefix comes back unchanged
+		if pn := catch(func() {
+			nilMsg := reflect.Zero(reflect.TypeOf(r.p)).Interface().(proto.Message)
+			nb, nerr := o.MarshalAppend(append([]byte(nil), prefix...), nilMsg)
+			if nerr != nil {
+				e.Err += "|nil: " + nerr.Error()
+				e.Ok = false
+			}
+			e.OutNil = proj.Bytes(nb)
+		}); pn != "" {
+			e.Panic, e.Ok = "nil: "+pn, false
+		}
 	case "unmarshal":
 		o := proto.UnmarshalOptions{Merge: op.Merge, DiscardUnknown: op.Discard}
 		in := proj.ToBytes(op.In)
@@ -567,6 +638,20 @@ func randomCodecPlan(g *val.Gen, mt protoreflect.MessageType, mode string, emit 
 		return false
 	}
 	emit(Op{Op: "load", T: t, V: v})
+	if is("rt") {
+		// multi-step history: the same objects, already sized and marshalled once, are edited in
+		// place (anything cached inside them is now stale) and marshalled again
+		emit(Op{Op: "size", Det: true, Tag: "rt-history"})
+		emit(Op{Op: "marshal", Det: true, Tag: "rt-history"})
+		cur := d
+		for k := 0; k < 2; k++ {
+			cur = g.Mutate(cur)
+			emit(Op{Op: "sync", V: proj.Project(cur.ProtoReflect(), proj.WrapNone), Tag: "rt-history"})
+			emit(Op{Op: "size", Det: true, Tag: "rt-history"})
+			emit(Op{Op: "roundtrip", Det: true, Tag: "rt-history"})
+		}
+		emit(Op{Op: "load", T: t, V: v})
+	}
 	// (not in lib mode: proto.Merge INTO a message holding nil map values / list elements panics
 	// "cannot merge into invalid message" in every implementation -- nil is read-only)
 	if g.R.Intn(2) == 0 && (is("rt", "det", "size") || mode == "mem" || mode == "pure") {
@@ -599,6 +684,12 @@ func randomCodecPlan(g *val.Gen, mt protoreflect.MessageType, mode string, emit 
 		emit(Op{Op: "lib", V: v, Tag: "lib-self"}) // merge the original value onto the merged one
 		emit(Op{Op: "reset", Tag: "lib"})
 		emit(Op{Op: "lib", V: v2, Tag: "lib-onto-empty"})
+		// Go-level nil messages in containers read as empty ones for every read-only algorithm
+		// (Merge INTO them is invalid everywhere, hence the read-only variant)
+		emit(Op{Op: "load", T: t, V: v})
+		emit(Op{Op: "plantnil", Tag: "lib-nil"})
+		emit(Op{Op: "lib", V: v, RO: true, Tag: "lib-nil"})
+		emit(Op{Op: "lib", V: v2, RO: true, Tag: "lib-nil"})
 	}
 	if mode == "mem" {
 		x := b
@@ -606,11 +697,18 @@ func randomCodecPlan(g *val.Gen, mt protoreflect.MessageType, mode string, emit 
 			x = g.InjectUnknown(md, b, 0)
 		}
 		emit(Op{Op: "alias_in", In: proj.Bytes(x), Tag: "mem"})
+		if len(x) >= 120 {
+			// zero-copy views of fixed-width payloads depend on the alignment of the input
+			for off := 1; off < 8; off++ {
+				emit(Op{Op: "alias_in", In: proj.Bytes(x), Off: off, Tag: "mem-align"})
+			}
+		}
 		emit(Op{Op: "alias_out", Det: g.R.Intn(2) == 0, Tag: "mem"})
 		emit(Op{Op: "readonly", Tag: "mem"})
 	}
 	if mode == "pure" {
 		emit(Op{Op: "detn", Reps: 6, Tag: "pure"})
+		emit(Op{Op: "marshal", Det: true, Tag: "pure"}) // incl. the direct fast-path call with Flags = Deterministic only
 	}
 	if is("size") {
 		emit(Op{Op: "size", Det: true, Tag: "size"})
@@ -634,6 +732,13 @@ func randomCodecPlan(g *val.Gen, mt protoreflect.MessageType, mode string, emit 
 		emit(Op{Op: "size", Det: true, Tag: "merge"})
 		// decoding a concatenation equals decoding the first then merging the second
 		emit(Op{Op: "unmarshal", In: proj.Bytes(append(append([]byte(nil), x...), y...)), Tag: "concat"})
+		// Go-level history: lists resliced shorter (the dropped element stays in the spare capacity),
+		// then decoded into again with the Merge option: the appended elements must be fresh
+		emit(Op{Op: "load", T: t, V: v})
+		emit(Op{Op: "reslice", Tag: "reslice"})
+		near, _ := proto.MarshalOptions{Deterministic: true}.Marshal(g.Mutate(d))
+		emit(Op{Op: "unmarshal", In: proj.Bytes(near), Merge: true, Tag: "reslice-merge"})
+		emit(Op{Op: "marshal", Det: true, Tag: "reslice-merge"})
 	}
 	if is("unknown") {
 		gu := *g
@@ -644,6 +749,8 @@ func randomCodecPlan(g *val.Gen, mt protoreflect.MessageType, mode string, emit 
 		emit(Op{Op: "unmarshal", In: proj.Bytes(x), Discard: true, Tag: "discard"})
 		emit(Op{Op: "marshal", Det: true, Tag: "discard"})
 		emit(Op{Op: "unmarshal", In: proj.Bytes(x), Merge: true, Discard: g.R.Intn(2) == 0, Tag: "discard-merge"})
+		// the stored unknown records are copies: overwriting the input afterwards changes nothing
+		emit(Op{Op: "alias_in", In: proj.Bytes(x), Tag: "unknown-alias"})
 	}
 }
 
